@@ -546,6 +546,14 @@ def c05_loop(sc, base, seed, tr=None):
     return out
 
 
+def c05_loop_c20(sc, base, seed, tr=None):
+    """a run that ends on a negative inventory is reported as crashed whatever the display options"""
+    out = c05_loop(sc, base, seed, tr)
+    for v in out:
+        v["property"] = "C20"
+    return out
+
+
 def long_loop(sc, base, seed, pid="C10"):
     """a run longer than the periodic equilibrium checks of loop() (every 182 temporal units), with the scenario's first
     event moved late: loop() covers the whole horizon and the late event acts on schedule"""
